@@ -16,6 +16,9 @@ def runCase (c : Case) : List String :=
   | "soft" => runSolve c.lines
   | "lazy" => runSolve c.lines
   | "cancel" => runSolve c.lines
+  | "reuse" => runSolve c.lines
+  | "reuse-async" => runSolve c.lines
+  | "async" => runSolve c.lines
   | "conflictfree" => runSolve c.lines
   | f => [s!"unknown-family {f}"]
 
